@@ -111,7 +111,7 @@ def canon(x, strict=False, _depth=0, _onpath=None):
             except AttributeError:
                 out.append((n, ("<unset>",)))
         return ("obj", qual(t), tuple(out))
-    return ("opaque", qual(t), repr(x)[:200])
+    return ("opaque", qual(t))  # no repr: default reprs carry addresses, which differ between processes
 
 
 def same(a, b, strict=False):
